@@ -1036,7 +1036,12 @@ impl fmt::Display for PreExp {
             }
             Self::CompoundVariable(c) => c.to_string(),
             Self::FunctionCall(_, f) => f.to_string(),
-            Self::Primitive(p) => p.to_string(),
+            // a number literal keeps its decimal point: `2.0` is a Number where
+            // `2` is an integer (checked integer arithmetic, integer-only positions)
+            Self::Primitive(p) => match p.value() {
+                Primitive::Number(n) if n.is_finite() && n.fract() == 0.0 => format!("{:.1}", n),
+                p => p.to_string(),
+            },
             Self::UnaryOperation(op, exp) => {
                 if exp.is_leaf() {
                     format!("{}{}", **op, **exp)
